@@ -51,6 +51,33 @@ Theorem T03_eol_idempotent : forall s, eol_norm (eol_norm s) = eol_norm s.
 Proof. intros s. apply eol_id_no_cr. apply eol_no_cr. Qed.
 Print Assumptions T03_eol_idempotent.
 
+(** source line numbers: the line count is additive over any split of the text that does not separate a #xD from
+    the #xA that belongs to it - so the line reported at an event position only depends on the text before it *)
+Lemma eol_app : forall a b, (last a 0 <> 13 \/ hd 0 b <> 10) -> eol_norm (a ++ b) = eol_norm a ++ eol_norm b.
+Proof.
+  apply (list_ind2 (fun a => forall b, (last a 0 <> 13 \/ hd 0 b <> 10) -> eol_norm (a ++ b) = eol_norm a ++ eol_norm b)).
+  - intros b _. reflexivity.
+  - intros c b H. cbn [app last] in *. cbn [eol_norm]. unfold c_cr, c_lf. destruct (c =? 13) eqn:E.
+    + apply N.eqb_eq in E. subst c. destruct H as [H|H]; [contradiction|]. destruct b as [|d r]; [reflexivity|].
+      cbn [hd] in H. replace (d =? 10) with false by (symmetry; apply N.eqb_neq; exact H). reflexivity.
+    + reflexivity.
+  - intros c d r IHr IHd b H. change ((c :: d :: r) ++ b) with (c :: d :: (r ++ b)). rewrite !eol_norm_cons2.
+    assert (Hd : last (d :: r) 0 <> 13 \/ hd 0 b <> 10) by (destruct H as [H|H]; [left; exact H|right; exact H]).
+    assert (Hr : last r 0 <> 13 \/ hd 0 b <> 10 \/ r = []).
+    { destruct H as [H|H]; [|tauto]. destruct r; [tauto|left; exact H]. }
+    specialize (IHd b Hd). change (d :: r ++ b) with ((d :: r) ++ b). rewrite IHd.
+    destruct (c =? 13); [|reflexivity]. destruct (d =? 10) eqn:E2; [|reflexivity].
+    destruct r as [|e r'].
+    + cbn [app eol_norm]. reflexivity.
+    + rewrite (IHr b); [reflexivity|]. destruct Hr as [Hr|[Hr|Hr]]; [left; exact Hr|right; exact Hr|discriminate].
+Qed.
+Lemma count_lf_app : forall a b, count_lf (a ++ b) = count_lf a + count_lf b.
+Proof. intros a b. unfold count_lf. rewrite filter_app, app_length. lia. Qed.
+Theorem T03_line_additive : forall a b, (last a 0 <> 13 \/ hd 0 b <> 10) ->
+  line_after false (a ++ b) = line_after false a + count_lf (eol_norm b).
+Proof. intros a b H. unfold line_after. rewrite (eol_app a b H), count_lf_app. lia. Qed.
+Print Assumptions T03_line_additive.
+
 (** attribute-value normalisation, CDATA attributes: the code computes section 3.3.3 *)
 Theorem T03_attnorm_cdata : forall v, attnorm_cdata v = attnorm_spec_cdata v.
 Proof.
